@@ -882,6 +882,12 @@ def r_update(w, op):
             sh.coord_type = op["ctype"]
         elif what == "icenter":
             sh.icenter = op["icenter"]
+        elif what == "variant":
+            if hasattr(sh, "variant"):
+                sh.variant = (sh.variant + 1 + op.get("variant", 0) % 2) % 3  # always another convention
+                w.probe("instance_convention_changed")
+            else:
+                sh.coord_type = op["ctype"]
         b.touched = touched
         w.probe("param_update_then_renormalise")
         return touched
